@@ -15,7 +15,7 @@ from harness import lab
 from harness.common import Ctx, driver, pmap, parse_rat, use_repo, close
 
 DT = 64
-FRACS = [Fraction(0), Fraction(1, 2048), Fraction(1, 2), Fraction(1)]
+FRACS = [Fraction(0), Fraction(1, 2048), Fraction(1, 512), Fraction(1, 2), Fraction(1)]
 
 
 def frame_values(nf, seed):
